@@ -102,6 +102,19 @@ def seed_cases(pid):
     return out
 
 
+def refactor_cases():
+    """the independently written behaviour-preserving refactorings (must stay silent for every
+    property; 'no verdict' is tolerated and counted)"""
+    base = os.path.join(os.path.dirname(os.path.dirname(os.path.abspath(__file__))), "refactorings")
+    out = []
+    if os.path.isdir(base):
+        for d in sorted(os.listdir(base)):
+            pp = os.path.join(base, d, "patch.diff")
+            if os.path.exists(pp):
+                out.append(Case("refactor:" + d, "keep", [("@seed", pp, None)], None))
+    return out
+
+
 def _run_case(args):
     pid, root, name, kind, edits, expect = args
     from sa.engine import Engine
@@ -139,6 +152,8 @@ def _run_case(args):
             return (name, kind, "detected", "", hit[:3])
         return (name, kind, "MISSED", "violations reported: %s" % vio[:5], vio[:5])
     else:
+        if err is not None and name.startswith("refactor:"):
+            return (name, kind, "no-verdict", err, [])
         if err is not None:
             return (name, kind, "FALSE-ALARM", "analysis error on a behaviour-preserving rewrite: " + err, [])
         if vio:
@@ -151,7 +166,7 @@ def run_selftests(pid, root, seed=0, jobs=None):
         mod = importlib.import_module("selftest.cases_" + pid.lower())
     except ModuleNotFoundError:
         return {"selftest": "no self-validation cases registered for this property"}
-    cases = list(mod.CASES) + seed_cases(pid)
+    cases = list(mod.CASES) + seed_cases(pid) + refactor_cases()
     jobs = jobs or min(16, max(1, os.cpu_count() or 1))
     work = [(pid, root, c.name, c.kind, c.edits, c.expect) for c in cases]
     # edits may contain callables: not picklable -> run those in-process
@@ -170,10 +185,12 @@ def run_selftests(pid, root, seed=0, jobs=None):
         "selftest_breaking_failclosed": len([r for r in results if r[2] == "analysis-error"]),
         "selftest_preserving_silent": len([r for r in results if r[2] == "silent"]),
         "selftest_skipped": len([r for r in results if r[2] == "skipped"]),
+        "selftest_refactorings_silent": len([r for r in results if r[0].startswith("refactor:") and r[2] == "silent"]),
+        "selftest_refactorings_no_verdict": len([r for r in results if r[0].startswith("refactor:") and r[2] == "no-verdict"]),
         "selftest_seeded_changes_detected": len([r for r in results if r[0].startswith("seed:") and r[2] == "detected"]),
         "selftest_results": [{"case": r[0], "kind": r[1], "verdict": r[2], "keys": r[4], "note": r[3][:200]} for r in results],
     }
-    applied = len(results) - summary["selftest_skipped"]
+    applied = len([r for r in results if not r[0].startswith(("refactor:", "seed:"))]) - len([r for r in results if r[2] == "skipped" and not r[0].startswith(("refactor:", "seed:"))])
     floor = getattr(mod, "MIN_APPLIED", max(1, len(results) // 2))
     if bad:
         for r in bad:
